@@ -150,4 +150,14 @@ META["C16"] = {
     "technique": "TLA+ backup invariant (TLC) + trace validation of backup/list/delete/restore on real nodes",
 }
 
+META["C11"] = {
+    "text": "Api.tla maps request classes to allowed response classes and state effects (every request gets a response; only a well-formed "
+            "add extends the log, by exactly its number of events; a valid add answers 2xx); Cluster.tla's NoVersionPanic covers 'everything "
+            "replicated is applicable'. The request matrix is fired at the real apihttp/mgmthttp muxes over a real RaftNode hosted in a "
+            "child process (so an FSM panic is a real process death); TLC validates each outcome: a dropped connection, a dead or wedged "
+            "process, a log change by a non-add, a failed liveness probe or a failed restart (log replay) is a violation.",
+    "note": "Trusted: TLC, the driver's HTTP client, net/http. The matrix is structured (not all byte strings); oversized means 300 events.",
+    "technique": "TLA+ request/response specification + TLC trace validation of the real HTTP handlers over a child-process node",
+}
+
 NOT_APPLICABLE = {}
